@@ -67,16 +67,16 @@ def check(run: Run) -> None:
     run.check(drop_sites(got) == drop_sites(want), "C06.R1", rg, rg.node, "lowering term equals the reference lowering", "resolve_generator: " + (_first_diff(drop_sites(got), drop_sites(want)) or "differs"), show(want)[:300], show(got)[:500])
     # iteration orders (not visible in the term when a reversed() is dropped on both loops)
     fa = ctx.analysis(rg)
-    loops = [n for n in own_nodes(rg) if isinstance(n, ast.For)]
+    from ..lib import unit_loops
+
+    ul = unit_loops(ctx, m, rg)
     gp = ("param", rg.pos_params[2])
-    def _it(lp):
-        return strip_sites(fa.term_of(lp.iter, fa.cfg.node_of(lp)))
-    outer_l = [lp for lp in loops if _it(lp) == gp or (_it(lp)[0] == "app" and _it(lp)[2] == (gp,)) or (_it(lp)[0] == "slice" and _it(lp)[1] == gp)]
-    inner_l = [lp for lp in loops if lp not in outer_l]
-    ok_o = len(outer_l) == 1 and isinstance(outer_l[0].iter, ast.Call) and isinstance(outer_l[0].iter.func, ast.Name) and outer_l[0].iter.func.id == "reversed"
-    run.check(ok_o, "C06.R1", rg, outer_l[0] if outer_l else rg.node, "for-clauses are folded innermost first (reversed)", "the for-clauses are not processed in reverse order: with several clauses the nesting of the lowered Select calls is inverted")
-    ok_i = len(inner_l) == 1 and strip_sites(fa.term_of(inner_l[0].iter, fa.cfg.node_of(inner_l[0])))[0] == "attr" and strip_sites(fa.term_of(inner_l[0].iter, fa.cfg.node_of(inner_l[0])))[2] == "ifs"
-    run.check(ok_i, "C06.R1", rg, inner_l[0] if inner_l else rg.node, "if-clauses are applied left to right", "the if-clauses of a comprehension are not applied in source order")
+    outer_l = [(g_, lp, it) for g_, lp, it in ul if it == gp or (it[0] == "app" and it[2] == (gp,)) or (it[0] == "slice" and it[1] == gp)]
+    inner_l = [(g_, lp, it) for g_, lp, it in ul if not any(lp is x[1] for x in outer_l)]
+    ok_o = len(outer_l) == 1 and isinstance(outer_l[0][1].iter, ast.Call) and isinstance(outer_l[0][1].iter.func, ast.Name) and outer_l[0][1].iter.func.id == "reversed"
+    run.check(ok_o, "C06.R1", rg, outer_l[0][1] if outer_l and outer_l[0][0] is rg else rg.node, "for-clauses are folded innermost first (reversed)", "the for-clauses are not processed in reverse order: with several clauses the nesting of the lowered Select calls is inverted")
+    ok_i = len(inner_l) == 1 and inner_l[0][2][0] == "attr" and inner_l[0][2][2] == "ifs" and isinstance(inner_l[0][1].iter, (ast.Name, ast.Attribute))
+    run.check(ok_i, "C06.R1", rg, inner_l[0][1] if inner_l and inner_l[0][0] is rg else rg.node, "if-clauses are applied left to right", "the if-clauses of a comprehension are not applied in source order")
 
     # ---------------- R3
     from ..lib import call_events, call_sites_of, unit
@@ -116,15 +116,15 @@ def check(run: Run) -> None:
         f2 = ctx.analysis(fi)
         nodep = ("param", fi.pos_params[1])
         rt = canon(f2.return_term(), fi.pos_params)
-        terms[name] = drop_sites(rt)
+        terms[name] = frozenset(unphi_terms(drop_sites(rt)))  # the alternatives, whatever the (kind-specific) test between them
         V = ("gvisit", ("param", "#1"))
         # lowering is applied to the visited node's elt / generators
-        calls = [c for c in calls_in(fi) if isinstance(c.func, ast.Attribute) and c.func.attr == "resolve_generator"]
-        ok = len(calls) == 1
+        calls = call_events(ctx, fi, lambda nm: nm == "resolve_generator")
+        ok = len(calls) == 1 and len(calls[0].args) >= 2
         if ok:
-            a0, a1 = (strip_sites(f2.term_of(x)) for x in calls[0].args[:2])
+            a0, a1 = calls[0].args[:2]
             ok = a0 == ("attr", ("gvisit", nodep), "elt") and a1 == ("attr", ("gvisit", nodep), "generators")
-            fx = Facts(f2, calls[0])
+            fx = calls[0].facts(ctx)
             ok = ok and fx.isinstance_of(("gvisit", nodep), {f"ast.{kind}"})
         run.check(ok, "C06.R2", fi, fi.node, f"{name} lowers the generic_visit-ed {kind}", f"{name} does not lower the elt/generators of the visited node (children first): nested comprehensions are not lowered at every depth")
         for s, n in f2.returns():
@@ -176,17 +176,24 @@ def check(run: Run) -> None:
     lookups = [n for n in own_nodes(cd) if isinstance(n, ast.DictComp)]
     ok_l = len(lookups) == 1 and ast.unparse(lookups[0].key).endswith(".arg") and ast.unparse(lookups[0].value).endswith(".value") and strip_sites(fc.term_of(lookups[0].generators[0].iter, fc.cfg.node_of(lookups[0]))) == ("attr", ap, "keywords")
     run.check(ok_l, "C06.R4", cd, lookups[0] if lookups else cd.node, "keyword table is {kw.arg: kw.value} of the call's keywords", "the keyword lookup is not built from the call's own keywords")
-    raises = [n for n in own_nodes(cd) if isinstance(n, ast.Raise)]
     k2 = set()
-    for r in raises:
-        exc = r.exc.func if isinstance(r.exc, ast.Call) else r.exc
-        run.check(isinstance(exc, ast.Name) and exc.id == "ValueError", "C06.R4", cd, r, "malformed constructor use raises ValueError", f"raises {ast.unparse(exc)}")
-        for a, pol in Facts(fc, r).atoms:
-            txt = ast.unparse(a)
-            if pol and "len(" in txt and ("<" in txt or ">" in txt):
-                k2.add("surplus")
-            if isinstance(a, ast.Compare) and isinstance(a.ops[0], (ast.NotIn, ast.In)) and (isinstance(a.ops[0], ast.NotIn) == pol) and strip_sites(fc.term_of(a.comparators[0])) == sigp:
-                k2.add("unknown")
+    for g_ in unit(m, cd, depth=1):
+        bind_ = None
+        if g_ is not cd:
+            cs_ = [(c_, call, skip) for c_, call, skip in call_sites_of(m, g_) if c_ is cd]
+            if len(cs_) != 1:
+                continue
+            bind_ = {("param", p_): strip_sites(fc.term_of(a_)) for p_, a_ in zip(g_.pos_params[cs_[0][2]:], cs_[0][1].args)}
+        for r in [n for n in own_nodes(g_) if isinstance(n, ast.Raise)]:
+            exc = r.exc.func if isinstance(r.exc, ast.Call) else r.exc
+            run.check(isinstance(exc, ast.Name) and exc.id == "ValueError", "C06.R4", g_, r, "malformed constructor use raises ValueError", f"raises {ast.unparse(exc)}")
+            fx_ = Facts(ctx.analysis(g_), r, binding=bind_)
+            for a, pol in fx_.atoms:
+                txt = ast.unparse(a)
+                if pol and "len(" in txt and ("<" in txt or ">" in txt):
+                    k2.add("surplus")
+                if isinstance(a, ast.Compare) and isinstance(a.ops[0], (ast.NotIn, ast.In)) and (isinstance(a.ops[0], ast.NotIn) == pol) and fx_._term(a.comparators[0]) == sigp:
+                    k2.add("unknown")
     run.check("surplus" in k2, "C06.R4", cd, cd.node, "surplus arguments raise ValueError", "more arguments than fields is not refused")
     run.check("unknown" in k2, "C06.R4", cd, cd.node, "unknown keyword raises ValueError", "a keyword that is not a field name is not refused")
     # surplus test: len(names) < len(args) + len(keywords)
@@ -202,29 +209,44 @@ def check(run: Run) -> None:
     nodep = ("param", vc.pos_params[1])
     V = ("gvisit", nodep)
     klass = ("attr", ("attr", V, "func"), "value")
-    sites = [c for c in calls_in(vc) if isinstance(c.func, ast.Attribute) and c.func.attr == "convert_call_to_dict"]
-    run.check(len(sites) == 2, "C06.R4", vc, vc.node, "dataclass and NamedTuple branches use the same binder", f"{len(sites)} convert_call_to_dict sites")
+    from ..terms import decision_alternatives
+
+    sites = [e for e in call_events(ctx, vc, lambda nm: nm == "convert_call_to_dict") if len(e.args) >= 3]
+    run.check(len(sites) >= 1, "C06.R4", vc, vc.node, "dataclass and NamedTuple constructors go through the binder", f"{len(sites)} convert_call_to_dict sites")
     seen = set()
-    for c in sites:
-        fx = Facts(fv, c)
-        names_t = strip_sites(fv.term_of(c.args[2]))
-        is_dc = any(pol and isinstance(a, ast.Call) and isinstance(a.func, ast.Name) and a.func.id == "is_dataclass" and strip_sites(fv.term_of(a.args[0])) == klass for a, pol in fx.atoms)
-        is_nt = any(pol and isinstance(a, ast.Call) and isinstance(a.func, ast.Name) and a.func.id == "hasattr" and strip_sites(fv.term_of(a.args[0])) == klass and isinstance(a.args[1], ast.Constant) and a.args[1].value == "_fields" for a, pol in fx.atoms)
+    sig = ("app", ("global", "inspect.signature"), (klass,), ())
+
+    def _is_dc(cond):
+        return cond[0] == "app" and cond[1][0] == "global" and cond[1][1].endswith("is_dataclass") and cond[2] == (klass,)
+
+    def _is_nt(cond):
+        return cond[0] == "app" and cond[1] == ("global", "builtins.hasattr") and cond[2] == (klass, ("const", "_fields"))
+
+    for e in sites:
+        fx = e.facts(ctx)
+        at_ = stmt_of(e.call) if e.owner is vc else vc.node
+        fact_dc = any(pol and isinstance(a, ast.Call) and isinstance(a.func, ast.Name) and a.func.id == "is_dataclass" and fx._term(a.args[0]) == klass for a, pol in fx.atoms)
+        fact_nt = any(pol and isinstance(a, ast.Call) and isinstance(a.func, ast.Name) and a.func.id == "hasattr" and fx._term(a.args[0]) == klass and isinstance(a.args[1], ast.Constant) and a.args[1].value == "_fields" for a, pol in fx.atoms)
         const_callee = fx.isinstance_of(("attr", V, "func"), {"ast.Constant"})
-        run.check(const_callee, "C06.R4", vc, stmt_of(c), "lowering only for a Constant callee", "constructor lowering is not restricted to calls whose callee is a captured class constant")
-        a0 = strip_sites(fv.term_of(c.args[0]))
-        run.check(a0 == V, "C06.R2", vc, stmt_of(c), "constructor arguments are visited first", "constructor lowering uses the un-visited call")
-        if is_dc:
-            seen.add("dataclass")
-            sig = ("app", ("global", "inspect.signature"), (klass,), ())
-            ok = names_t[0] == "comp" and names_t[2] == ("attr", ("elem", names_t[3][0][0]), "name") and names_t[3][0][0] == ("app", ("attr", ("attr", sig, "parameters"), "values"), (), ()) and not names_t[3][0][1]
-            run.check(ok, "C06.R4", vc, stmt_of(c), "dataclass field names are the constructor's signature parameters, in order", f"dataclass field names come from {show(names_t)[:140]}, not from the constructor's own signature: fields that the constructor does not take (init=False) or takes differently shift the positional binding", "[p.name for p in inspect.signature(cls).parameters.values()]", show(names_t))
-        elif is_nt:
-            seen.add("namedtuple")
-            ok = names_t == ("comp", "ListComp", ("elem", ("attr", klass, "_fields")), ((("attr", klass, "_fields"), ()),)) or names_t == ("attr", klass, "_fields")
-            run.check(ok, "C06.R4", vc, stmt_of(c), "NamedTuple field names are cls._fields in order", f"NamedTuple field names come from {show(names_t)[:120]}")
-        else:
-            run.fail("C06.R4", vc, stmt_of(c), "a constructor-lowering site is guarded neither by is_dataclass nor by hasattr(_fields)")
+        run.check(const_callee, "C06.R4", vc, at_, "lowering only for a Constant callee", "constructor lowering is not restricted to calls whose callee is a captured class constant")
+        run.check(e.args[0] == V, "C06.R2", vc, at_, "constructor arguments are visited first", "constructor lowering uses the un-visited call")
+        for conds, names_t in decision_alternatives(e.args[2]):
+            if names_t == ("const", None):
+                known = fx.compare_const(e.args[2], [ast.IsNot], None) or any(isinstance(a, ast.Compare) and len(a.ops) == 1 and isinstance(a.comparators[0], ast.Constant) and a.comparators[0].value is None and ((isinstance(a.ops[0], ast.Is) and not pol) or (isinstance(a.ops[0], ast.IsNot) and pol)) and strip_sites(fx._term(a.left))[0] in ("ifexp", "phi", "app") and ("const", None) in [x for _c, x in decision_alternatives(fx._term(a.left))] for a, pol in fx.atoms)
+                run.check(known, "C06.R4", vc, at_, "no lowering when the class is neither a dataclass nor a NamedTuple", "the binder may be handed None for the field names")
+                continue
+            is_dc = fact_dc or any(pol and _is_dc(c_) for c_, pol in conds)
+            is_nt = fact_nt or any(pol and _is_nt(c_) for c_, pol in conds)
+            if is_dc:
+                seen.add("dataclass")
+                ok = names_t[0] == "comp" and names_t[2] == ("attr", ("elem", names_t[3][0][0]), "name") and names_t[3][0][0] == ("app", ("attr", ("attr", sig, "parameters"), "values"), (), ()) and not names_t[3][0][1]
+                run.check(ok, "C06.R4", vc, at_, "dataclass field names are the constructor's signature parameters, in order", f"dataclass field names come from {show(names_t)[:140]}, not from the constructor's own signature: fields that the constructor does not take (init=False) or takes differently shift the positional binding", "[p.name for p in inspect.signature(cls).parameters.values()]", show(names_t))
+            elif is_nt:
+                seen.add("namedtuple")
+                ok = names_t == ("comp", "ListComp", ("elem", ("attr", klass, "_fields")), ((("attr", klass, "_fields"), ()),)) or names_t == ("attr", klass, "_fields")
+                run.check(ok, "C06.R4", vc, at_, "NamedTuple field names are cls._fields in order", f"NamedTuple field names come from {show(names_t)[:120]}")
+            else:
+                run.fail("C06.R4", vc, at_, "a constructor-lowering site is guarded neither by is_dataclass nor by hasattr(_fields)")
     run.check(seen == {"dataclass", "namedtuple"}, "C06.R4", vc, vc.node, "both constructor kinds are lowered", f"lowered kinds: {sorted(seen)}")
 
     # ---------------- R5
